@@ -1,17 +1,21 @@
 #!/usr/bin/env python3
-"""copy a confirmed seeded change into /verif/seeded/<id>/ and record what was run: seed_store.py <mutant dir> <id> <confirm line> <check log> <property>"""
-import sys, os, json, shutil, re
-m, ident, confirm, log, prop = sys.argv[1:6]
-dst = os.path.join('/verif/seeded', ident); os.makedirs(dst, exist_ok=True)
-for f in ('patch.diff', 'demo.cpp'): shutil.copy(os.path.join(m, f), os.path.join(dst, f))
-meta = json.load(open(os.path.join(m, 'meta.json')))
+"""record the outcome of a seeded change in /verif/seeded/<id>/meta.json:
+   seed_store.py <id> <confirm result file> <check log>      (patch.diff / demo.cpp / the author's meta.json are already in seeded/<id>/)"""
+import sys, os, json, re
+ident, confirm_file, log = sys.argv[1:4]
+prop = ident[:3]
+dst = os.path.join('/verif/seeded', ident)
+meta = json.load(open(os.path.join(dst, 'meta.json')))
+confirm = open(confirm_file).read().strip() if os.path.exists(confirm_file) else meta.get('confirmed_by_me', '')
 txt = open(log).read() if os.path.exists(log) else ''
-vio = re.findall(r'^VIOLATION property=(\S+) replay=\S+ obligation=(\S+) function=(\S+)(.*)$', txt, re.M)
-last = [l for l in txt.strip().split('\n') if l.startswith('[')][-1:] 
+vio = re.findall(r'^VIOLATION property=(\S+) replay=\S+ obligation=(\S+)(?: function=(\S+))?(.*)$', txt, re.M)
+inc = re.findall(r'^INCONCLUSIVE property=\S+:? (.*)$', txt, re.M)
+last = [l for l in txt.strip().split('\n') if l.startswith('[') and 'obligations=' in l][-1:]
 meta.update({'property': prop, 'confirmed_by_me': confirm,
-             'what_i_ran': f"tools/seed_confirm.sh (scratch worktree: demo passes without the patch, patch applies, -Werror build, 293 tests pass, demo fails with it); tools/seed_check.sh: VERIF_REPO=<scratch worktree with the patch> ./vf check {prop} --quick",
-             'check_exit': 1 if vio else (2 if 'INCONCLUSIVE' in txt else 0), 'detected': bool(vio),
-             'failed_obligations': sorted({f"{o} @ {fn}" + (' (no native reproduction)' if 'no-failing-input-found' in t else ' (replayed natively)') for _, o, fn, t in vio})[:12],
+             'what_i_ran': f"tools/seed_confirm.sh (scratch worktree: demonstration passes without the patch, patch applies, -Werror build, 293 tests pass, demonstration fails with it); tools/seed_check.sh: VERIF_REPO=<scratch worktree with the patch> ./vf check {prop} --quick",
+             'check_exit': 1 if vio else (2 if inc or not last else 0), 'detected': bool(vio),
+             'failed_obligations': sorted({f"{o} @ {fn or '-'}" + (' (no native reproduction)' if 'no-failing-input-found' in t else ' (replayed natively)') for _, o, fn, t in vio})[:12],
+             'why_not': (inc[0][:300] if inc and not vio else ''),
              'summary_line': last[0] if last else ''})
 json.dump(meta, open(os.path.join(dst, 'meta.json'), 'w'), indent=1)
-print(ident, 'detected' if vio else 'MISSED', len(vio))
+print(ident, 'detected' if vio else ('INCONCLUSIVE' if meta['check_exit'] == 2 else 'MISSED'), len(vio))
